@@ -5,4 +5,4 @@ From C19 Require Import Gen Model Spec RTDefs.
 Extraction Language OCaml.
 Extraction "model.ml" io_witness N.div_eucl ptr_parse ptr_to_string is_prefix_of toks_eqb escape unescape
   parse_text parse_seq write cx_parsed cx_api jv_eqb lookup apply_op set_apply data_apply
-  rfc_patch rfc_op quirk_kind quirk_step quirk_free tok_index rfc_index MAX_DEPTH wfb canon compare_numbers num_eq_cpp num_lt_cpp patch_parse_text patch_apply_text.
+  rfc_patch rfc_op quirk_kind quirk_step quirk_free tok_index rfc_index MAX_DEPTH wfb canon compare_numbers num_eq_cpp num_lt_cpp patch_parse_text patch_apply_text h_init h_step h_tree lexer_error_text patch_error_text handler_error_text.
